@@ -738,6 +738,8 @@ def _one_pass(ctx: Ctx, g: Gen, r, sizes, first: bool):
         ctx.disagreement("canonical", meta_c[i], "a tree returned by the real parser is not `canonical` (hypothesis of parse_print too strong)")
     ctx.log(f"correspondence canonical: {len(canon_cases)} trees, disagreements {None if bad is None else len(bad)}")
 
+    _conv_stage(ctx, r, cases, hdr, first)
+
     # ---- through a real Butler -----------------------------------------------------------------
     pool = [c for c in cases if c["kind"] in ("corpus", "replay")]
     rest = [c for c in cases if c["kind"] not in ("corpus", "replay") and not (c["kind"] == "valid" and c.get("style") != "plain") and c["kind"] != "paren"]
@@ -792,6 +794,153 @@ def _one_pass(ctx: Ctx, g: Gen, r, sizes, first: bool):
                 ctx.oracle_fail(f"legacy-syntax:{lg.get('type', 'accepted')}", {"where": s, "legacy": lg},
                                 "legacy registry.queryDataIds did not report a syntax error as a user expression error")
     ctx.log(f"butler: {len(wl)} where strings through 3 query interfaces")
+
+
+# --------------------------------------------------------------------------------------------------
+# conversion stage (O7 + tie K for _ConversionVisitor): convert_expression_string_to_predicate observed directly
+# --------------------------------------------------------------------------------------------------
+
+CONV_BIND = {"d": 1, "ids": [1, 2], "names": ["g", "r"], "b": 2, "x": 1,
+             "t0": {"time": "2020-01-01T00:00:00", "scale": "tai"}, "f": 1.5, "s": "g", "mixed": [1, "a"], "fs": [1.5, 2.5]}
+CONV_EDGE = [
+    "", "1", "null", "null = null", "NULL = detector", "detector != Null", "detector < null", "instrument = null", "1 = null",
+    "visit.timespan = visit.timespan", "visit.timespan != visit.timespan", "visit.timespan IN (visit.timespan)", "visit.timespan IN (null)",
+    "visit.timespan = null", "visit.timespan < visit.timespan", "visit.timespan OVERLAPS visit.timespan", "visit.timespan OVERLAPS T'2020-01-01'",
+    "T'2020-01-01' OVERLAPS visit.timespan", "T'2020-01-01' OVERLAPS T'2020-01-02'", "visit.timespan.begin OVERLAPS visit.timespan",
+    "(T'2020-01-01', T'2020-01-02') OVERLAPS visit.timespan", "(null, T'2020-01-02') OVERLAPS (T'2020-01-01', NULL)", "(:t0, null) OVERLAPS visit.timespan",
+    "((T'2020-01-01'), T'2020-01-02') OVERLAPS visit.timespan", "(+T'2020-01-01', null) OVERLAPS visit.timespan", "(visit.timespan.begin, null) OVERLAPS visit.timespan",
+    "(T'2020-01-02', T'2020-01-01') OVERLAPS visit.timespan", "('2020-01-01', null) OVERLAPS visit.timespan", "(1, 2) OVERLAPS visit.timespan", "(:d, null) OVERLAPS visit.timespan",
+    "+detector = 1", "+ + detector = 1", "+(detector) = 1", "+instrument = 'a'", "+null = 1", "+:s = 'g'", "+:f < 2", "-:f < 2", "-:s = 'g'", "- -detector = 1", "-null = 1",
+    "+T'2020-01-01' = visit.timespan.begin", "-visit.timespan.begin = :t0", "NOT detector", "NOT null", "NOT (detector = 1)", "NOT NOT detector = 1", "NOT :d",
+    "detector IN (1)", "detector IN (1.5)", "detector IN ('a')", "detector IN (:ids)", "detector IN (:names)", "detector IN (:fs)", "detector IN (:mixed)", "detector IN (:d, :b)",
+    "detector IN (:s)", "detector IN (:t0)", "detector IN (:nobody)", "detector IN (null)", "detector IN (visit)", "detector IN (instrument)", "detector IN (1..5)", "detector IN (5..1)",
+    "detector IN (5..4)", "detector IN (5..3)", "detector IN (1..5:2)", "instrument IN (1..5)", "instrument IN ('a', :names, band)", "instrument IN (:ids)", "visit.exposure_time IN (1..5)",
+    "visit.exposure_time IN (1.5, :fs, :f)", "visit.exposure_time IN (1)", "visit.timespan.begin IN (:t0)", "visit.timespan.begin IN (T'2020-01-01')", "visit.timespan IN (:t0)",
+    "visit.timespan.begin IN (visit.timespan.end)", "null IN (1)", "(detector = 1) IN (1)", "detector + 1 IN (1, 2)", "detector / 2 IN (1..2)", "-detector IN (-1, +2)", "detector IN (-1..+2)",
+    "detector NOT IN (1, :ids)", "1 IN (detector)", "'a' IN (instrument)", ":d IN (1)", ":ids IN (1)", ":ids = 1", "detector = :ids", "detector = :D", "detector = :T0", "visit.timespan.begin < :t0",
+    "detector = 1.5", "detector = 1.", "detector = 1e3", "detector = 007", "visit.exposure_time = 1", "visit.exposure_time = 1.5", "visit.exposure_time > .5e1", "visit.exposure_time = '1'",
+    "detector % 2 = 1", "visit.exposure_time % 2 = 1", "detector % 2.0 = 1", "detector + 1.5 = 2", "visit.exposure_time + 1.5 > 2.5", "detector / 2 % 2 = 1", "instrument + 'a' = 'b'",
+    "detector + visit > exposure", "detector * (visit - 1) / 2 >= 0", "detector = instrument", "instrument < band", "instrument = 'a' = 'b'", "(instrument = 'a') = null",
+    "detector = 1 AND 2", "detector OR visit", "detector = 1 OR instrument", "(detector = 1) + 1 = 2", "detector = (1)", "((detector)) = ((1))", "(detector = 1)", "((detector = 1) AND (visit = 2))",
+    "foo(1)", "foo()", "foo(1, 2) = 1", "max(detector) = 1", "POINT(1, 2)", "POINT(1) = 1", "POINT(1, 2, 3) = 1", "visit.region OVERLAPS POINT(1, 2)", "visit.region OVERLAPS POINT(-1.5, +2)",
+    "visit.region OVERLAPS POINT(detector, 2)", "visit.region OVERLAPS POINT('a', 2)", "visit.region OVERLAPS POINT(:f, :d)", "visit.region OVERLAPS POINT(:s, 1)", "visit.region OVERLAPS POINT(1 + 1, 2)",
+    "visit.region OVERLAPS POINT(-(1), (2))", "visit.region OVERLAPS POINT(null, 2)", "visit.region = visit.region", "visit.region OVERLAPS visit.region", "visit.region OVERLAPS visit.timespan",
+    "detector = 1..5", "1..5", "NOT 1..5", "(1..5)", "detector IN ((1..5))", "detector = nosuch", "detector.nosuch = 1", "a.b.c = 1", "visit.timespan.middle = 1", "x_y = 1", "ingest_date = 1",
+    "seq_num = 1", "exposure_time > 1", "timespan OVERLAPS T'2020-01-01'", "timespan.begin < T'2020-01-01'", "region OVERLAPS POINT(1, 2)", "name = 'a'", "id = 1", "visit.id = 1", "visit.instrument = 'Cam'",
+    "Visit.Seq_Num = 1", "DETECTOR = 1", "detector = :X", "htm7 = 1", "detector = 12345678901234567890", "detector = T'2020-01-01'", "visit.timespan.begin = '2020-01-01'",
+    "visit.timespan.begin = T'2020-01-01'", "visit.timespan.end > T'mjd/58938.515'", "visit.timespan.begin = T'garbage'", "detector = 1 #", "detector == 1", "detector = 1 AND", "a b",
+]
+
+
+def cvalue(v) -> str:
+    k = v[0]
+    if k == "int":
+        return f"(VInt {cz(v[1])})"
+    if k == "real":
+        return f"(VReal {cz(v[1])} {int(v[2])}%positive)"
+    if k == "str":
+        return f"(VStr {cs(v[1])})"
+    if k == "time":
+        return f"(VTime {cz(v[1])})"
+    if k == "span":
+        return f"(VSpan {cz(v[1])} {cz(v[2])})"
+    raise ValueError(f"cannot encode value {k}")
+
+
+def crid(r) -> str:
+    if r is None:
+        return "None"
+    k = r[0]
+    if k == "col":
+        return f"(Some (RCol {int(r[1])}%N {r[2]}))"
+    if k in ("begin", "end"):
+        return f"(Some ({'RBegin' if k == 'begin' else 'REnd'} {int(r[1])}%N))"
+    if k == "null":
+        return "(Some RNull)"
+    if k == "lit":
+        return f"(Some (RLit {cvalue(r[1])}))"
+    if k == "seq":
+        return f"(Some (RSeq {clist(cvalue(v) for v in r[1])}))"
+    return "(Some ROther)"
+
+
+def _conv_stage(ctx: Ctx, r, cases, hdr: str, first: bool):
+    """every string of the run (plus CONV_EDGE) through the real convert_expression_string_to_predicate and through the
+    model's where_verdict (lexer, parser, of_tree, C05's conv)"""
+    # the parser stage above already compares every string; here the interesting strings are the ones that parse, so
+    # syntax errors, redundant spellings and garbage are sampled
+    keep = {"conv-edge": 1.0, "corpus": 1.0, "replay": 1.0, "illtyped-family": 1.0, "valid": 1.0, "mutant": 1.0, "edge": 1.0,
+            "paren": 0.1, "syntax-family": 0.15, "garbage": 0.3}
+    seen, todo = set(), []
+    for c in ([{"s": s, "kind": "conv-edge"} for s in CONV_EDGE] if first else []) + cases:
+        if c["s"] in seen or (c["kind"] == "valid" and c.get("style") != "plain") or r.random() >= keep.get(c["kind"], 1.0):
+            continue
+        seen.add(c["s"])
+        todo.append(c)
+    todo = todo[:12000]
+    ctxs = [["visit", "detector"], ["exposure"]]
+    jobs = []     # (case, dims)
+    for c in todo:
+        jobs.append((c, 0))
+        if c["kind"] in ("conv-edge", "corpus", "replay", "illtyped-family") or r.random() < 0.15:
+            jobs.append((c, 1))
+    chunk = 500
+    payloads, owner = [], []
+    for d in (0, 1):
+        js = [j for j in jobs if j[1] == d]
+        for i in range(0, len(js), chunk):
+            payloads.append({"strings": [j[0]["s"] for j in js[i:i + chunk]], "bind": CONV_BIND, "dimensions": ctxs[d]})
+            owner.append(js[i:i + chunk])
+    res = parallel_workers("c14_impl", "conv_batch", payloads, timeout=600)
+    conv_cases, meta = [], []
+    for k, (st, out) in enumerate(res):
+        if st != "ok":
+            ctx.tie_broken("harness", "conv_batch", f"worker {st}: {str(out)[-600:]}")
+            continue
+        bnd = clist(cs(b) for b in out["bound"])
+        for (c, d), rec in zip(owner[k], out["results"]):
+            s = c["s"]
+            ctx.count()
+            ctx.hist("conv_obs", rec["obs"])
+            # ---- O7: the conversion raises InvalidQueryError and nothing else
+            if rec["obs"] == "other":
+                o = rec["fail"]
+                ctx.oracle_fail(f"butler-exc:{o['type']}@{o['loc']}", {"where": s, "api": "convert_expression_string_to_predicate", "dimensions": ctxs[d], "error": o},
+                                f"convert_expression_string_to_predicate raised {o['type']} instead of InvalidQueryError")
+            for n, rr in rec["res"].items():
+                if rr is not None and rr[0] == "exc":
+                    ctx.oracle_fail(f"resolve-exc:{rr[1]}", {"where": s, "name": n, "dimensions": ctxs[d]}, f"visitIdentifier({n!r}) raised {rr[1]} instead of InvalidQueryError")
+            if rec["obs"] == "accept" and c.get("must_reject"):
+                ctx.oracle_fail(f"accepted-invalid:{c.get('family')}", {"where": s, "api": "convert_expression_string_to_predicate", "family": c.get("family"), "must_reject": True},
+                                "an invalid where string was converted to a Predicate (given some other meaning)")
+            try:
+                conv_cases.append(
+                    f"(mkv {ccodes(s)} {ctimes(rec['times'])} {clist(f'({cs(a)}, {cz(b)})' for a, b in rec['tns'].items())} "
+                    f"{clist(f'({cs(n)}, {crid(rr)})' for n, rr in rec['res'].items())} {bnd} "
+                    f"{ {'accept': 'CAccept', 'invalid': 'CInvalid', 'other': 'COther'}[rec['obs']] })")
+                meta.append({"s": s, "dimensions": ctxs[d], "kind": c["kind"], "family": c.get("family"), "real": rec["obs"], "res": rec["res"]})
+            except ValueError as e:
+                ctx.disagreement("encode", {"s": s}, f"observation not expressible in the model: {e}")
+    hdr_v = (hdr.replace("Model.ParserCheck.", "Model.ParserCheck Model.Expr Model.SqlExpr Model.ParserConv Model.ParserConvCheck.")
+             + "Definition mkv (c : list N) (t : list (string * option string)) (n : list (string * Z)) (r : list (string * option rid)) "
+               "(b : list string) (o : cobs) : conv_case := (c, t, n, r, b, o).\n")
+    bad = ctx.coq_cases("conv", hdr_v, conv_cases, "chk_conv", shard=700)
+    for i in (bad or [])[:6]:
+        ctx.disagreement("conv", meta[i], "model verdict (lexer, parser, of_tree, conv) differs from convert_expression_string_to_predicate")
+    # evidence (non-vacuity): on a fixed-size sample, on how many cases does the model commit to Accept / Reject
+    step = max(1, len(conv_cases) // 600)
+    sample = list(range(0, len(conv_cases), step))
+    noclaim = ctx.coq_cases("conv_claims", hdr_v, [conv_cases[i] for i in sample], "chk_conv_claims", shard=700)
+    if noclaim is not None:
+        nc = set(noclaim)
+        for j, i in enumerate(sample):
+            m = meta[i]
+            ctx.hist("conv_model_sample", "no-claim" if j in nc else ("accept" if m["real"] == "accept" else "reject"))
+    for m in meta:
+        if m["real"] == "invalid" and m["kind"] in ("illtyped-family", "conv-edge", "valid"):
+            ctx.nontrivial("conv:" + m["s"])
+    ctx.log(f"correspondence conv: {len(conv_cases)} cases, disagreements {None if bad is None else len(bad)}; "
+            f"sample of {len(sample)}: model makes no claim on {None if noclaim is None else len(noclaim)}")
 
 
 def _shape_sig(G) -> str:
